@@ -85,3 +85,28 @@ Example C09_tiles_example :
   builder_build [(true, 1); (false, 4); (true, 2); (false, 4)] [7; 11; 0; 0; 0; 8; 9; 13; 0; 0; 0; 1; 2; 3]
   = Ok [[7]; [1; 2]; [8; 9]; [3]].
 Proof. reflexivity. Qed.
+
+(** ** The conditions of the property text, as an executable check, are exactly acceptance. *)
+From SSZ Require Import SplitSpec SplitFacts.
+
+(** [layout_ok regs bs] (SplitSpec.v) computes every item's position from the registration
+    sequence alone, reads ALL offset words and checks: the fixed part fits; without variable
+    items the input ends with it; otherwise the first offset equals the end of the fixed part,
+    offsets are non-decreasing and none is past the end.  [split] then cuts fixed items in
+    place and the i-th variable item from its offset to the next one (the last to the end). *)
+Theorem C09_conditions_iff_acceptance :
+  forall regs bs, wfb bs -> len bs <= usize_max ->
+    (layout_ok regs bs = true <-> exists slices, builder_build regs bs = Ok slices).
+Proof. exact layout_ok_accepts. Qed.
+Print Assumptions C09_conditions_iff_acceptance.
+
+Theorem C09_each_item_its_own_bytes :
+  forall regs bs slices, wfb bs -> len bs <= usize_max ->
+    (SplitSpec.split regs bs = Some slices <-> builder_build regs bs = Ok slices).
+Proof. exact split_builder. Qed.
+Print Assumptions C09_each_item_its_own_bytes.
+
+Theorem C09_tiling_is_unique :
+  forall regs bs s1 s2, wfb bs -> Tiles regs bs s1 -> Tiles regs bs s2 -> s1 = s2.
+Proof. exact tiles_unique. Qed.
+Print Assumptions C09_tiling_is_unique.
